@@ -88,6 +88,8 @@ fn run_model_accumulation(ctx: &mut Ctx, r: &mut Rng) {
     let has_batch = spec.in_dims.len() > rank_unbatched;
     let (n_before, n_model, n_after) = (r.below(3), r.range(1, 3), r.below(2));
     let total = n_before + n_model + n_after;
+    // a Model pair may call backward twice on one forward (the second pass adds the same gradients again)
+    let doubled: Vec<bool> = (0..total).map(|i| i >= n_before && i < n_before + n_model && r.chance(1, 3)).collect();
     let mut batches = vec![];
     for _ in 0..total {
         let mut s2 = spec.clone();
@@ -102,7 +104,7 @@ fn run_model_accumulation(ctx: &mut Ctx, r: &mut Rng) {
         let target = gen_target(r, &out.dims);
         batches.push((input, target));
     }
-    let desc = format!("model-accumulation|{}|by-hand={} model-pairs={} by-hand-after={} batches={:?}", spec.describe(), n_before, n_model, n_after, batches.iter().map(|b| b.0.dims.clone()).collect::<Vec<_>>());
+    let desc = format!("model-accumulation|{}|by-hand={} model-pairs={} by-hand-after={} doubled={:?} batches={:?}", spec.describe(), n_before, n_model, n_after, doubled, batches.iter().map(|b| b.0.dims.clone()).collect::<Vec<_>>());
     ctx.case(&desc, total >= 2);
     ctx.sample("model-accumulation", || desc.clone());
     // reference: sum of the single-pass gradients
@@ -110,17 +112,18 @@ fn run_model_accumulation(ctx: &mut Ctx, r: &mut Rng) {
     let mut want: Vec<Vec<f64>> = params.iter().map(|p| vec![0.0; p.v.len()]).collect();
     let mut scale: Vec<Vec<f64>> = want.clone();
     let mut kinked = false;
-    for (input, target) in &batches {
+    for (bi, (input, target)) in batches.iter().enumerate() {
         match loss_and_grads(&spec, &params, input, target) {
             Some((loss, g, sc, kink)) => {
                 if !loss.is_finite() {
                     return;
                 }
                 kinked |= kink;
+                let times = if doubled[bi] { 2.0 } else { 1.0 };
                 for i in 0..np {
                     for j in 0..g[i].len() {
-                        want[i][j] += g[i][j];
-                        scale[i][j] += sc[i][j];
+                        want[i][j] += times * g[i][j];
+                        scale[i][j] += times * sc[i][j];
                     }
                 }
             }
@@ -151,6 +154,9 @@ fn run_model_accumulation(ctx: &mut Ctx, r: &mut Rng) {
             for _ in 0..n_model {
                 let _ = model.forward(arr_t(&batches[k].0));
                 let _ = model.backward(arr_t(&batches[k].1));
+                if doubled[k] {
+                    let _ = model.backward(arr_t(&batches[k].1));
+                }
                 k += 1;
             }
         }
